@@ -14,7 +14,7 @@
 
     [EarliestStartTimeObserver] is the REPAIRED one (fix-C11-earliest-start). *)
 From JSL Require Import Base Instance Dstate Filters World Observers Feasible Derived DispatchFun Inv Run Replay
-     FeatureObservers FeatureSpec FeatureBase FeatureSimple FeatureProofs FeatureEst FeatureComposite FeatureMachines FeatureCompletedOps.
+     FeatureObservers FeatureSpec FeatureBase FeatureSimple FeatureProofs FeatureEst FeatureComposite FeatureMachines FeatureCompletedOps FeatureCompletedMach.
 
 (** ** IsReady: readiness w.r.t. the installed filter (every entity, every filter, zero durations included) *)
 Theorem C11_is_ready :
@@ -104,16 +104,19 @@ Theorem C11_duration_ongoing_refuted :
 Proof. exists dur_I, [], dur_rs, 0%nat, 0%nat. vm_compute. repeat split; reflexivity. Qed.
 Print Assumptions C11_duration_ongoing_refuted.
 
-(** ** IsCompleted. What holds ([_partial]): the job flag is raised exactly
-    when every operation of the (non-empty) job is SCHEDULED. The documented
+(** ** IsCompleted. What holds ([_partial]): the flag of a non-empty job / of
+    a machine that has operations (flexible instances included: every eligible
+    machine counts) is raised exactly when all its operations are SCHEDULED. The documented
     meaning (every operation COMPLETED) fails ([C11_is_completed_refuted]). *)
 Theorem C11_is_completed_partial :
   forall (I : instance) (fs : list fname), valid I -> forall m rs s0 i,
     placed s0 i (fresh_comp I m) ->
     let w := after_run I fs s0 rs in
-    t_jobs m = true -> forall j, (j < num_jobs I)%nat -> get_job I j <> [] ->
-        cell (fo_jobs (feat w i)) j = Some (sp_allsched_job I (rows w) j).
-Proof. exact completed_jobs_after. Qed.
+    (t_jobs m = true -> forall j, (j < num_jobs I)%nat -> get_job I j <> [] ->
+        cell (fo_jobs (feat w i)) j = Some (sp_allsched_job I (rows w) j)) /\
+    (t_mach m = true -> forall mm, (mm < num_machines I)%nat -> existsb (on_machine I mm) (all_keys I) = true ->
+        cell (fo_mach (feat w i)) mm = Some (sp_allsched_mach I (rows w) mm)).
+Proof. exact completed_partial_after. Qed.
 Print Assumptions C11_is_completed_partial.
 
 (** Operation level: the flags are sticky, so the claim rests on the clock
